@@ -198,6 +198,12 @@ func (u *Unit) loopEnter(st *State, lp *Loop) {
 			}
 		}
 		delete(st.lastArgs, ev.Name)
+		if ev.Record {
+			for i, srt := range ev.RecordArgs {
+				key := fmt.Sprintf("seq!%s!%d", ev.Name, i)
+				st.cnt[key] = u.fresh("loop.seq", ArrSort(SInt, srt))
+			}
+		}
 	}
 	for _, c := range inv {
 		env := u.newEnv(st)
